@@ -47,7 +47,12 @@ def _sr_rec_j(inp):
 
 
 def _mk_ann(j, rec):
-    return P()._ann(j, rec)
+    """(whatever the construction path, the annotation refers to the live recording object of the step: histories
+    change that object in place)"""
+    a = P()._ann(j, rec)
+    if a.sound_event.recording is not rec:
+        a.sound_event.recording = rec
+    return a
 
 
 def _mk_seq(segs):
